@@ -1,1 +1,382 @@
-//! (to be written)
+//! Two small automata from RFC 9114: request-stream frame sequences (section 4.1) and
+//! control / unidirectional stream rules (sections 6.2, 7.2.4).
+
+use crate::frames::{self as rf, Frame, Tail};
+
+pub const H3_NO_ERROR: u64 = 0x100;
+pub const H3_GENERAL_PROTOCOL_ERROR: u64 = 0x101;
+pub const H3_INTERNAL_ERROR: u64 = 0x102;
+pub const H3_STREAM_CREATION_ERROR: u64 = 0x103;
+pub const H3_CLOSED_CRITICAL_STREAM: u64 = 0x104;
+pub const H3_FRAME_UNEXPECTED: u64 = 0x105;
+pub const H3_FRAME_ERROR: u64 = 0x106;
+pub const H3_EXCESSIVE_LOAD: u64 = 0x107;
+pub const H3_ID_ERROR: u64 = 0x108;
+pub const H3_SETTINGS_ERROR: u64 = 0x109;
+pub const H3_MISSING_SETTINGS: u64 = 0x10a;
+pub const H3_REQUEST_REJECTED: u64 = 0x10b;
+pub const H3_REQUEST_CANCELLED: u64 = 0x10c;
+pub const H3_REQUEST_INCOMPLETE: u64 = 0x10d;
+pub const H3_MESSAGE_ERROR: u64 = 0x10e;
+pub const H3_CONNECT_ERROR: u64 = 0x10f;
+pub const H3_VERSION_FALLBACK: u64 = 0x110;
+pub const QPACK_DECOMPRESSION_FAILED: u64 = 0x200;
+pub const H3_DATAGRAM_ERROR: u64 = 0x33;
+
+#[derive(Debug, Clone, Copy, PartialEq, Eq)]
+pub enum Role {
+    /// a server reading a request stream
+    ServerRecv,
+    /// a client reading the response on a request stream
+    ClientRecv,
+}
+
+#[derive(Debug, Clone, Copy, PartialEq, Eq)]
+pub enum Ending {
+    Fin,
+    Open,
+}
+
+/// How far the message gets and how it stops.
+#[derive(Debug, Clone, PartialEq, Eq)]
+pub enum Stop {
+    /// the message is complete and legal (end of stream reached cleanly)
+    Complete,
+    /// connection error with this code
+    ConnError(u64),
+    /// server only: the stream finished before any HEADERS - stream error, no connection error
+    RequestIncomplete,
+    /// the stream is still open and more bytes are needed
+    NeedMore,
+    /// client reading a response stream that ended before HEADERS: RFC 9114 fixes no code here
+    Unspecified,
+}
+
+#[derive(Debug, Clone, Copy, PartialEq, Eq)]
+pub enum Phase {
+    /// waiting for the first HEADERS
+    Head,
+    /// reading the body (after HEADERS)
+    Body,
+    /// after the trailing HEADERS
+    Trailers,
+}
+
+#[derive(Debug, Clone, PartialEq, Eq)]
+pub struct RequestVerdict {
+    /// payload of the first HEADERS frame, if the message head was received
+    pub head: Option<Vec<u8>>,
+    /// every DATA payload byte, in order, up to the stop
+    pub body: Vec<u8>,
+    /// the body really ended (second HEADERS or clean end of stream)
+    pub body_ended: bool,
+    /// payload of the trailing HEADERS frame
+    pub trailers: Option<Vec<u8>>,
+    pub stop: Stop,
+    /// the phase in which the stop happens
+    pub phase: Phase,
+    /// type of the offending frame for ConnError
+    pub culprit: Option<u64>,
+}
+
+/// Frames that are never allowed on a request stream (RFC 9114 sections 7.2.3-7.2.8).
+fn forbidden_on_request_stream(ty: u64, role: Role) -> Option<bool> {
+    // Some(true): forbidden; Some(false): allowed; None: not asserted
+    match ty {
+        rf::CANCEL_PUSH | rf::SETTINGS | rf::GOAWAY | rf::MAX_PUSH_ID => Some(true),
+        t if rf::is_h2_reserved(t) => Some(true),
+        rf::PUSH_PROMISE => match role {
+            Role::ServerRecv => Some(true),
+            Role::ClientRecv => None,
+        },
+        _ => Some(false),
+    }
+}
+
+/// Judge the bytes of one request stream. `None` is returned when the sequence contains a
+/// PUSH_PROMISE sent to a client (no required outcome is asserted for it).
+pub fn request_stream(bytes: &[u8], ending: Ending, role: Role) -> Option<RequestVerdict> {
+    let (frames, tail) = rf::segment(bytes);
+    let mut v = RequestVerdict {
+        head: None,
+        body: Vec::new(),
+        body_ended: false,
+        trailers: None,
+        stop: Stop::Complete,
+        phase: Phase::Head,
+        culprit: None,
+    };
+    for f in &frames {
+        let Frame { ty, payload, .. } = f;
+        if !rf::is_known(*ty) && !rf::is_h2_reserved(*ty) {
+            continue; // unknown types are permitted anywhere
+        }
+        match forbidden_on_request_stream(*ty, role) {
+            None => return None,
+            Some(true) => {
+                // a malformed payload of a forbidden frame may equally be reported as H3_FRAME_ERROR;
+                // callers that care use `request_stream_codes`
+                v.stop = Stop::ConnError(H3_FRAME_UNEXPECTED);
+                v.culprit = Some(*ty);
+                return Some(v);
+            }
+            Some(false) => {}
+        }
+        match (v.phase, *ty) {
+            (Phase::Head, rf::HEADERS) => {
+                v.head = Some(payload.clone());
+                v.phase = Phase::Body;
+            }
+            (Phase::Head, _) => {
+                v.stop = Stop::ConnError(H3_FRAME_UNEXPECTED);
+                v.culprit = Some(*ty);
+                return Some(v);
+            }
+            (Phase::Body, rf::DATA) => v.body.extend_from_slice(payload),
+            (Phase::Body, rf::HEADERS) => {
+                v.trailers = Some(payload.clone());
+                v.body_ended = true;
+                v.phase = Phase::Trailers;
+            }
+            (Phase::Trailers, _) => {
+                v.stop = Stop::ConnError(H3_FRAME_UNEXPECTED);
+                v.culprit = Some(*ty);
+                return Some(v);
+            }
+            (Phase::Body, _) => unreachable!(),
+        }
+    }
+    match (tail, ending) {
+        (Tail::Clean, Ending::Fin) => match v.phase {
+            Phase::Head => {
+                v.stop = match role {
+                    Role::ServerRecv => Stop::RequestIncomplete,
+                    Role::ClientRecv => Stop::Unspecified,
+                }
+            }
+            Phase::Body => {
+                v.body_ended = true;
+                v.stop = Stop::Complete;
+            }
+            Phase::Trailers => v.stop = Stop::Complete,
+        },
+        (Tail::Clean, Ending::Open) => v.stop = Stop::NeedMore,
+        (Tail::Partial { ty, len, have, .. }, Ending::Open) => {
+            if v.phase == Phase::Body && ty == Some(rf::DATA) && len.is_some() {
+                v.body.extend_from_slice(&bytes[bytes.len() - have..]);
+            }
+            v.stop = Stop::NeedMore;
+            v.culprit = ty;
+        }
+        (Tail::Partial { ty, len, have, .. }, Ending::Fin) => {
+            if v.phase == Phase::Body && ty == Some(rf::DATA) && len.is_some() {
+                v.body.extend_from_slice(&bytes[bytes.len() - have..]);
+            }
+            v.stop = Stop::ConnError(H3_FRAME_ERROR);
+            v.culprit = ty;
+        }
+    }
+    Some(v)
+}
+
+// ------------------------------------------------------------------------------------------
+// control stream / unidirectional streams
+
+pub const STREAM_CONTROL: u64 = 0x00;
+pub const STREAM_PUSH: u64 = 0x01;
+pub const STREAM_QPACK_ENCODER: u64 = 0x02;
+pub const STREAM_QPACK_DECODER: u64 = 0x03;
+pub const STREAM_WEBTRANSPORT_UNI: u64 = 0x54;
+
+#[derive(Debug, Clone, Copy, PartialEq, Eq)]
+pub enum Endpoint {
+    Client,
+    Server,
+}
+
+#[derive(Debug, Clone, PartialEq, Eq)]
+pub enum CtrlEvent {
+    Settings(Vec<u8>),
+    Goaway(u64),
+    CancelPush(u64),
+    MaxPushId(u64),
+}
+
+#[derive(Debug, Clone, PartialEq, Eq)]
+pub struct ControlVerdict {
+    /// frames the receiver has to act on, in order, before the stop
+    pub acted: Vec<CtrlEvent>,
+    /// None: no connection error required (yet)
+    pub error: Option<u64>,
+    /// alternative codes that are equally defensible (e.g. a malformed payload of a frame that is
+    /// also not allowed here)
+    pub also_ok: Vec<u64>,
+    /// no assertion is made (a frame whose treatment the property leaves open was met)
+    pub unspecified: bool,
+}
+
+#[derive(Debug, Clone, Copy, PartialEq, Eq)]
+pub enum CtrlEnding {
+    Open,
+    Fin,
+    Reset,
+}
+
+/// Judge the frames received on the peer's control stream (after the stream type), by `me`.
+pub fn control_stream(bytes: &[u8], ending: CtrlEnding, me: Endpoint) -> ControlVerdict {
+    let (frames, tail) = rf::segment(bytes);
+    let mut v = ControlVerdict {
+        acted: Vec::new(),
+        error: None,
+        also_ok: Vec::new(),
+        unspecified: false,
+    };
+    let mut got_settings = false;
+    for f in &frames {
+        let ty = f.ty;
+        let known = rf::is_known(ty) || rf::is_h2_reserved(ty);
+        if !known {
+            // RFC 9114 7.2.8 / 9: unknown frame types are ignored, also before SETTINGS?  The first
+            // frame MUST be SETTINGS (6.2.1); a reserved frame first is "any other frame type".
+            if !got_settings {
+                v.error = Some(H3_MISSING_SETTINGS);
+                v.unspecified = true; // grease-before-SETTINGS: implementations differ; not asserted
+                return v;
+            }
+            continue;
+        }
+        if !got_settings {
+            if ty == rf::SETTINGS {
+                if rf::payload_fault(ty, &f.payload).is_some() {
+                    v.error = Some(H3_FRAME_ERROR);
+                    v.also_ok = vec![H3_SETTINGS_ERROR];
+                    return v;
+                }
+                got_settings = true;
+                v.acted.push(CtrlEvent::Settings(f.payload.clone()));
+                continue;
+            }
+            v.error = Some(H3_MISSING_SETTINGS);
+            if rf::is_h2_reserved(ty) {
+                v.also_ok.push(H3_FRAME_UNEXPECTED);
+            }
+            if rf::payload_fault(ty, &f.payload).is_some() {
+                v.also_ok.push(H3_FRAME_ERROR);
+            }
+            return v;
+        }
+        // after SETTINGS
+        let fault = rf::payload_fault(ty, &f.payload).is_some();
+        match ty {
+            rf::SETTINGS => {
+                v.error = Some(H3_FRAME_UNEXPECTED);
+                if fault {
+                    v.also_ok = vec![H3_FRAME_ERROR, H3_SETTINGS_ERROR];
+                }
+                return v;
+            }
+            rf::DATA | rf::HEADERS | rf::PUSH_PROMISE => {
+                v.error = Some(H3_FRAME_UNEXPECTED);
+                if fault {
+                    v.also_ok = vec![H3_FRAME_ERROR];
+                }
+                return v;
+            }
+            t if rf::is_h2_reserved(t) => {
+                v.error = Some(H3_FRAME_UNEXPECTED);
+                return v;
+            }
+            rf::GOAWAY | rf::CANCEL_PUSH | rf::MAX_PUSH_ID => {
+                if fault {
+                    v.error = Some(H3_FRAME_ERROR);
+                    if ty == rf::MAX_PUSH_ID && me == Endpoint::Client {
+                        v.also_ok = vec![H3_FRAME_UNEXPECTED];
+                    }
+                    return v;
+                }
+                let val = rf::single_varint(&f.payload).unwrap();
+                match ty {
+                    rf::GOAWAY => v.acted.push(CtrlEvent::Goaway(val)),
+                    rf::MAX_PUSH_ID => {
+                        if me == Endpoint::Client {
+                            v.error = Some(H3_FRAME_UNEXPECTED);
+                            return v;
+                        }
+                        v.acted.push(CtrlEvent::MaxPushId(val));
+                    }
+                    _ => {
+                        // CANCEL_PUSH: its treatment depends on push state the property does not
+                        // describe (H3_ID_ERROR for unknown push ids is permitted): not asserted
+                        v.unspecified = true;
+                        v.acted.push(CtrlEvent::CancelPush(val));
+                    }
+                }
+            }
+            _ => unreachable!(),
+        }
+    }
+    match (tail, ending) {
+        (_, CtrlEnding::Reset) => {
+            if v.error.is_none() {
+                v.error = Some(H3_CLOSED_CRITICAL_STREAM);
+            }
+        }
+        (Tail::Clean, CtrlEnding::Fin) => v.error = Some(H3_CLOSED_CRITICAL_STREAM),
+        (Tail::Partial { .. }, CtrlEnding::Fin) => {
+            v.error = Some(H3_FRAME_ERROR);
+            v.also_ok = vec![H3_CLOSED_CRITICAL_STREAM];
+        }
+        (_, CtrlEnding::Open) => {}
+    }
+    v
+}
+
+#[cfg(test)]
+mod tests {
+    use super::*;
+    use crate::frames::frame;
+    #[test]
+    fn request_sequences() {
+        let h = frame(rf::HEADERS, &[0, 0, 0xd1]);
+        let d0 = frame(rf::DATA, &[]);
+        let d3 = frame(rf::DATA, b"abc");
+        let unk = frame(0x21, &[1, 2]);
+        let mut s = Vec::new();
+        for p in [&h, &unk, &d0, &d3, &unk, &h, &unk] {
+            s.extend_from_slice(p);
+        }
+        let v = request_stream(&s, Ending::Fin, Role::ServerRecv).unwrap();
+        assert_eq!(v.stop, Stop::Complete);
+        assert_eq!(v.body, b"abc");
+        assert!(v.body_ended && v.trailers.is_some());
+        let v = request_stream(&d3, Ending::Fin, Role::ServerRecv).unwrap();
+        assert_eq!(v.stop, Stop::ConnError(H3_FRAME_UNEXPECTED));
+        let v = request_stream(&unk, Ending::Fin, Role::ServerRecv).unwrap();
+        assert_eq!(v.stop, Stop::RequestIncomplete);
+        let mut s = h.clone();
+        s.extend(frame(rf::SETTINGS, &[]));
+        let v = request_stream(&s, Ending::Open, Role::ClientRecv).unwrap();
+        assert_eq!((v.stop, v.phase), (Stop::ConnError(H3_FRAME_UNEXPECTED), Phase::Body));
+        let mut s = h.clone();
+        s.extend(&h);
+        s.extend(&d0);
+        let v = request_stream(&s, Ending::Open, Role::ServerRecv).unwrap();
+        assert_eq!((v.stop, v.phase), (Stop::ConnError(H3_FRAME_UNEXPECTED), Phase::Trailers));
+    }
+    #[test]
+    fn control_sequences() {
+        let st = frame(rf::SETTINGS, &[6, 16]);
+        let go = frame(rf::GOAWAY, &[4]);
+        let mut s = st.clone();
+        s.extend(&go);
+        let v = control_stream(&s, CtrlEnding::Open, Endpoint::Client);
+        assert_eq!(v.error, None);
+        assert_eq!(v.acted.len(), 2);
+        let v = control_stream(&go, CtrlEnding::Open, Endpoint::Client);
+        assert_eq!(v.error, Some(H3_MISSING_SETTINGS));
+        let mut s2 = s.clone();
+        s2.extend(&st);
+        assert_eq!(control_stream(&s2, CtrlEnding::Open, Endpoint::Server).error, Some(H3_FRAME_UNEXPECTED));
+        assert_eq!(control_stream(&s, CtrlEnding::Fin, Endpoint::Server).error, Some(H3_CLOSED_CRITICAL_STREAM));
+    }
+}
